@@ -1,5 +1,6 @@
 import QProofs.C16
 import QProofs.C16Sum
+import QProofs.C16Cond
 import Mathlib.Tactic.FieldSimp
 /-!
 # C16 — property theorems (index maps, constructor normalisation)
@@ -226,5 +227,55 @@ example : multiFromSerial [2, 3, 4] 17 = some [1, 1, 1] := by decide
 example : serialFromMulti [2, 3, 4] [1, 1, 1] = some 17 := by decide
 example : (ctor [1/2, 0, 1/2] [3] epsValidate).toOption = some ⟨[1/2, 0, 1/2], [3], false⟩ := by
   decide +kernel
+
+/-- C16.h `joint_eq_marginal_mul_conditional` (any set of conditioning variables): for a strictly
+ascending, in-range list `idxs` of conditioning variables and an in-range assignment `vals` of
+them, the mass of the slice `x_{idxs} = vals` that `conditionalize(idxs, vals)` renormalises by is
+exactly the entry of the marginal of the variables `idxs` that belongs to the multi-index `vals`
+(the marginal's entries are listed in the order of `allMulti (project shape idxs)`).  Hence every
+entry of the joint equals marginal × conditional whenever that mass is non-zero
+(`conditional_entry`).  Unbounded in the number and sizes of the variables and in the number of
+conditioning variables.  (`_hlen` is the constructor's size guard; the identity itself does not
+depend on it.) -/
+theorem conditional_mass_eq_marginal_multi (ps : List Rat) (shape idxs vals : List Nat)
+    (_hlen : ps.length = prod shape) (hasc : idxs.Pairwise (· < ·))
+    (hr : ∀ i ∈ idxs, i < shape.length) (hv : vals ∈ allMulti (project shape idxs)) :
+    (vals, rsum (conditionalRaw ps shape idxs vals).2) ∈
+      (allMulti (project shape idxs)).zip (marginalRaw ps shape idxs).2 := by
+  have hvl : vals.length = idxs.length := by
+    rw [length_of_mem_allMulti hv, project_length shape idxs hasc hr]
+  have hcond : rsum (conditionalRaw ps shape idxs vals).2 =
+      (fun o => rsum (((allMulti shape).zip ps).filterMap fun x =>
+        if project x.1 idxs = o then some x.2 else none)) vals := by
+    unfold conditionalRaw
+    simp only []
+    congr 1
+    apply List.filterMap_congr
+    intro x hx
+    have hmem := (List.of_mem_zip hx).1
+    have hl : ∀ i ∈ idxs, i < x.1.length := by
+      intro i hi; rw [length_of_mem_allMulti hmem]; exact hr i hi
+    have hiff := matchesCond_iff_project x.1 idxs vals hasc hl hvl
+    by_cases h : project x.1 idxs = vals
+    · simp [h, hiff.2 h]
+    · have : matchesCond x.1 idxs vals = false := by
+        cases hm : matchesCond x.1 idxs vals with
+        | false => rfl
+        | true => exact absurd (hiff.1 hm) h
+      simp [h, this]
+  rw [hcond]
+  exact mem_zip_map_self (allMulti (project shape idxs)) _ vals hv
+
+-- non-vacuity of C16.h: 2×2×2 tensor, conditioning on variables 0 and 2 (x0 = 1, x2 = 0)
+example : ([1, 0], rsum (conditionalRaw [1/16, 1/16, 1/8, 1/4, 1/16, 3/16, 1/8, 1/8] [2, 2, 2]
+      [0, 2] [1, 0]).2) ∈
+    (allMulti (project [2, 2, 2] [0, 2])).zip
+      (marginalRaw [1/16, 1/16, 1/8, 1/4, 1/16, 3/16, 1/8, 1/8] [2, 2, 2] [0, 2]).2 :=
+  conditional_mass_eq_marginal_multi _ [2, 2, 2] [0, 2] [1, 0] (by decide +kernel)
+    (by decide +kernel) (by decide +kernel) (by decide +kernel)
+example : marginalRaw [1/16, 1/16, 1/8, 1/4, 1/16, 3/16, 1/8, 1/8] [2, 2, 2] [0, 2]
+    = ([2, 2], [3/16, 5/16, 3/16, 5/16]) := by decide +kernel
+example : conditionalRaw [1/16, 1/16, 1/8, 1/4, 1/16, 3/16, 1/8, 1/8] [2, 2, 2] [0, 2] [1, 0]
+    = ([2], [1/16, 1/8]) := by decide +kernel
 
 end QM.C16
